@@ -29,7 +29,7 @@ type report struct {
 	Workers     int               `json:"workers"`
 }
 
-const rule = "every sequence of up to 4 (quick) / 5 (thorough) of 22 Markdown atoms ([a], (b), (b.html), (/c), (<d e>), (http://h/x), (#f), (?q), backquote, a fence line, 4-space indent, <div>, </div>, <!--, -->, newline, blank line, a reference definition, backslash, !, *, x) followed by a paragraph that uses the reference, under two base/dir configurations; and every string up to 5 / 6 characters over {U+00A0, space, ( ) < > \\ % a é} for escape∘unescape. " +
+const rule = "every sequence of up to 4 (quick) / 5 (thorough) of 22 Markdown atoms ([a], (b), (b.html), (/c), (<d e>), (http://h/x), (#f), (?q), backquote, a fence line, 4-space indent, <div>, </div>, <!--, -->, newline, blank line, a reference definition, backslash, !, *, x), under two base/dir configurations; every sequence of up to 5 / 6 of 11 fence atoms (``` ```` ``` s ~~~ ~~~~ ~~~ s lines, a line holding a link, a text line, a blank line, a 4-space indent, a backquote); every sequence of up to 3 / 4 pages out of 32 (8 documents x 4 directories) sent through ONE replacer whose dir is set before each page as build() does, each output compared with a fresh replacer's; and every string up to 5 / 6 characters over {U+00A0, space, ( ) < > \\ % a é} for escape∘unescape. " +
 	"Non-trivial = the replacer changed the document or goldmark sees a link or image in it (escape space: the string holds a backslash or U+00A0); each index is a distinct document"
 
 var assumptions = []string{
